@@ -2622,7 +2622,7 @@ def interconnect(
 
     else:
         connection_type = 'explicit'
-        if isinstance(connections, list) and \
+        if isinstance(connections, list) and len(connections) > 0 and \
                 all([isinstance(cnxn, (str, tuple)) for cnxn in connections]):
             # Special case where there is a single connection
             connections = [connections]
